@@ -37,7 +37,7 @@ func propTable() map[string]PropSpec {
 		Thorough: append([]HarnessRun{H("VGC", 8, 3, 1), H("VGC", 8, 3, 2), H("VRelief", 4, 2, 2, 2), H("VAssign", 4, 3, 1), H("VScaleDown", 4, 2, 2), {Entry: "VUpdateTarget", Pkg: "tkestack.io/kvass/pkg/shard", Args: []int{3}, Cosim: 8}}, lemmas...),
 		Required: []string{"gc.removed", "gc.rule1", "c01.reported", "c01.removed", "relief.moved", "assign.placed", "cycle.end"},
 		Prefixes: []string{"C01."},
-		Bounds:   "phase lemmas (gcTargets, alleviateShards, assignNoScrapingTargets, tryScaleDown) from arbitrary well-formed pre-states with S<=2 shards, K<=2 hashes (thorough S<=3); whole runOnce cycles at (S,K) = (1,1) with failing POSTs / ChangeScale and (2,0) (thorough + (1,2), (2,1), (3,0)); every map-iteration order and random pick; loop unwinding 12 with unwinding assertion",
+		Bounds:   "phase lemmas (gcTargets, alleviateShards, assignNoScrapingTargets, tryScaleDown) from arbitrary well-formed pre-states with S<=2 shards, K<=2 hashes (alleviateShards: K=1 with a head limit, K=2 without one and all shards in sync); whole runOnce cycles at (S,K) = (1,1) with failing POSTs / ChangeScale, (2,0), (2,1) without relief and (2,1) with relief on concrete, different shard loads and symbolic limits; thorough adds gcTargets at (3,1), (3,2), assignment at (3,1), scale-down at (2,2) and process-series relief at (2,2) under an unreached head limit; every map-iteration order and random pick; loop unwinding 12 with unwinding assertion",
 		Assume:   wfAssumptions, Outside: cycleOutside,
 	}
 	t["C04"] = PropSpec{
@@ -46,7 +46,7 @@ func propTable() map[string]PropSpec {
 		Thorough: append([]HarnessRun{H("VRelief", 6, 2, 2, 2), H("VAssign", 6, 3, 2)}, lemmas...),
 		Required: []string{"relief.placed", "assign.placed", "scaledown.placed", "c04.placed", "c04.scalecall"},
 		Prefixes: []string{"C04."},
-		Bounds:   "one lemma per placement site (head relief, process relief, first assignment, scale-down transfer) with S<=2, K<=2 (thorough S<=3); whole cycles at (1,1) (thorough + (1,2), and (2,1), (2,2) with all shards in sync); with and without a head-series limit",
+		Bounds:   "one lemma per placement site (head relief at K=1, process relief at K=2 without a head limit, first assignment, scale-down transfer) with S<=2, K<=2; whole cycles at (1,1); thorough adds first assignment at (3,2) and process relief at (2,2) under an unreached head limit (the receiving shard's head limit must be respected)",
 		Assume:   wfAssumptions, Outside: cycleOutside,
 	}
 	t["C05"] = PropSpec{
@@ -55,7 +55,7 @@ func propTable() map[string]PropSpec {
 		Thorough: []HarnessRun{H("VGC", 8, 3, 1), H("VGC", 8, 3, 2), H("VRelief", 4, 2, 2, 2), H("VScaleDown", 4, 2, 2), {Entry: "VCycle", Args: []int{2, 1, 8}, Cosim: 8, Subst: swr, Timeout: 40 * time.Minute}},
 		Required: []string{"gc.handover", "gc.removed", "relief.moved", "scaledown.moved", "c05.moved", "c05.handover"},
 		Prefixes: []string{"C05."},
-		Bounds:   "gcTargets / relief / scale-down lemmas with S<=2, K<=2 (thorough S<=3); whole cycles at (1,1), (2,1) (thorough (2,1) with every shard kind, (2,2) in sync); the constant 3 of the hand-over rule is taken from README, not from the code",
+		Bounds:   "gcTargets / relief / scale-down lemmas with S<=2, K<=2 (relief: K=1 with a head limit, K=2 without); whole cycles at (1,1), (2,1) without relief, (2,1) with relief on concrete, different shard loads; thorough adds gcTargets at (3,1), (3,2), scale-down at (2,2), relief at (2,2) under an unreached head limit and the fully symbolic whole cycle (2,1) with relief and all shards in sync; the constant 3 of the hand-over rule is taken from README, not from the code",
 		Assume:   wfAssumptions,
 		Outside:  append([]string{"multi-cycle composition of clauses (i)-(iii) into 'no interval without a scraper' is argued in DESIGN.md, each clause is decided per cycle"}, cycleOutside...),
 	}
@@ -65,7 +65,7 @@ func propTable() map[string]PropSpec {
 		Thorough: []HarnessRun{H("VScaleDown", 6, 2, 2), H("VCycle", 12, 1, 1, 2), H("VCycle", 4, 4, 0, 8)},
 		Required: []string{"scaledown.end", "c07.scalecall", "scaledown.moved"},
 		Prefixes: []string{"C07."},
-		Bounds:   "every ChangeScale argument of whole cycles at (S,K) = (1,1), (2,0), (3,0) (thorough + (1,2), (2,1), (4,0) in sync) with symbolic idle instants against a symbolic clock; tryScaleDown lemma with S<=3, K<=2",
+		Bounds:   "every ChangeScale argument of whole cycles at (S,K) = (1,1), (2,0), (2,1) without relief, with symbolic idle instants against a symbolic clock; tryScaleDown lemma at (2,1), (3,1); thorough adds the lemma at (2,2), the cycle (1,1) with failing scale requests and (4,0) with all shards in sync",
 		Assume:   append([]string{"time.Now: first reading arbitrary in [0,2^60), each later reading adds an arbitrary step in [0,2^50] ns; a shard whose idle time expires during the cycle is exempt from the keeps-used clause"}, wfAssumptions...),
 		Outside:  cycleOutside,
 	}
@@ -75,7 +75,7 @@ func propTable() map[string]PropSpec {
 		Thorough: []HarnessRun{H("VAssign", 4, 3, 2), H("VRelief", 4, 2, 2, 2)},
 		Required: []string{"c08.unready", "c08.statusfail", "c08.runtimefail", "c08.hashdiffers", "c08.outofsync", "c08.insync", "c08.heldoutofsync", "assign.placed"},
 		Prefixes: []string{"C08."},
-		Bounds:   "complete request log per shard under the full seven-step health script (ready, status GET, runtime GET, hash, config POST, second runtime GET, hash) at (S,K) = (1,1) incl. failing POSTs, (2,0) (thorough + (1,2), (2,1)); destination-is-in-sync lemmas for every placement site with S<=3",
+		Bounds:   "complete request log per shard under the full seven-step health script (ready, status GET, runtime GET, hash - another configuration's or the empty one, config POST, second runtime GET, hash) at (S,K) = (1,1) incl. failing POSTs, (2,0); whole cycle (2,1) without relief over every shard kind; destination-is-in-sync lemmas for every placement site with S<=3 (assignment (2,2), relief (2,1) and (2,2), scale-down (2,1), (3,1)); thorough adds assignment at (3,2) and relief at (2,2) under an unreached head limit",
 		Assume:   wfAssumptions, Outside: cycleOutside,
 	}
 	sidePkg := "tkestack.io/kvass/pkg/sidecar"
@@ -114,7 +114,7 @@ func propTable() map[string]PropSpec {
 		Thorough: []HarnessRun{{Entry: "VTMRestart", Args: []int{2}, Cosim: 8}},
 		Required: []string{"fs.write.ok", "fs.write.err.before", "fs.write.err.partial", "fs.kill.before", "fs.kill.partial", "fs.rename", "store.old", "store.end", "restart.end", "restart.second.refused"},
 		Prefixes: []string{"C09."},
-		Bounds:   "two consecutive arbitrary assignments over K<=1 hashes (thorough 2), both states, empty sets; the second update interrupted by each store fault (error before / after a proper prefix, process killed before / part-way / one byte before the end of the document); then two consecutive restarts; old-version store file present or not; the store written through ioutil.WriteFile or through os.OpenFile + Write (+ Sync, Close), followed by os.Rename",
+		Bounds:   "two consecutive arbitrary assignments over K<=1 hashes (restart harness: K<=2), both states, empty sets; the second update interrupted by each store fault (error before / after a proper prefix, process killed before / part-way / one byte before the end of the document); then two consecutive restarts; old-version store file present or not; the store written through ioutil.WriteFile or through os.OpenFile + Write (+ Sync, Close), followed by os.Rename",
 		Assume:   sideAssume,
 		Outside:  []string{"byte-level JSON fidelity (label values needing escaping, large sets): encoding/json is reflection-driven and is the contract of the abstract store; exercised only by the native co-simulation samples", "the exact byte offset of a partial write: every proper prefix (including the empty file) is one case of the store model", "document lengths are symbolic: a document with more targets is longer (by more than a byte) than one with fewer, documents with equally many targets are unrelated; without O_TRUNC the tail of a longer old file survives behind a shorter new document", "fsync / power-loss semantics (a completed write is durable), directory entries, permissions"},
 	}
@@ -172,7 +172,7 @@ func propTable() map[string]PropSpec {
 		Thorough: append([]HarnessRun{H("VAssign", 6, 3, 2), L("VLoop", 8, 3, 1, 6, 0), {Entry: "VLoop", Args: []int{2, 2, 6, 16}, Subst: swr, Unwind: 40, Cosim: 0, MergeAt: []string{coordPkg + ".vLoopCycle"}}, {Entry: "VUpdateTarget", Pkg: "tkestack.io/kvass/pkg/shard", Args: []int{3}, Cosim: 4}}, lemmas...),
 		Required: []string{"c03.placed", "c03.allinsync", "c03.stability.checked", "assign.placed", "shard.update.keys.same", "loop.ran", "loop.end", "loop.overloaded"},
 		Prefixes: []string{"C03.", "C01.shard.update.", "C01.c.loop."},
-		Bounds:   "multi-cycle layer: closed loop of the real coordinator with S=2 (thorough 3) real sidecar bookkeepers (TargetsManager + runtimeInfo over the abstract store), K=1 target of concrete size, limits 1000 / 500-or-none, max-idle-time 0 or 1h, every initial placement (absent / normal / in_transfer per shard, scraped or not, shard 0 overloaded or not), 3 scrapes per assigned target and 2 h between cycles: converged within H=5 (6) cycles and one further cycle changes nothing; thorough adds one K=2 scenario (two targets spread over two shards, every scrape / limit / idle-time variant, 6 cycles, equal states merged at cycle boundaries); single-cycle layer: scale-up clause, at-most-once / normal-state placement, placement-when-room (K=1) and the no-op-from-a-converged-state clause on whole cycles at (S,K) = (1,1), (2,0) (thorough + (1,2), (2,1)); assignNoScrapingTargets lemma with S<=2 (3), K<=2",
+		Bounds:   "multi-cycle layer: closed loop of the real coordinator with S=2 (thorough 3) real sidecar bookkeepers (TargetsManager + runtimeInfo over the abstract store), K=1 target of concrete size, limits 1000 / 500-or-none, max-idle-time 0 or 1h, every initial placement (absent / normal / in_transfer per shard, scraped or not, shard 0 overloaded or not), 3 scrapes per assigned target and 2 h between cycles: converged within H=5 (6) cycles and one further cycle changes nothing; thorough adds one K=2 scenario (two targets spread over two shards, every scrape / limit / idle-time variant, 6 cycles, equal states merged at cycle boundaries); single-cycle layer: scale-up clause, at-most-once / normal-state placement, placement-when-room (K=1) and the no-op-from-a-converged-state clause on whole cycles at (S,K) = (1,1), (2,0); assignNoScrapingTargets lemma with S<=2 (thorough 3), K<=2",
 		Assume:   wfAssumptions,
 		Outside:  append([]string{"closed loops with more than one target (K>=2 explodes: >10^5 iteration orders per cycle) or with symbolic sizes: the multi-cycle layer uses K=1 and concrete sizes, the capacity questions are decided only per cycle", "later growth of series and targets added or removed during the run", "single-cycle stability is asserted for max-idle-time = 0 only"}, cycleOutside...),
 	}
@@ -182,17 +182,17 @@ func propTable() map[string]PropSpec {
 		Thorough: []HarnessRun{{Entry: "VUpdateTarget", Pkg: "tkestack.io/kvass/pkg/shard", Args: []int{3}, Cosim: 4}, L("VLoop", 8, 3, 1, 7, 1), L("VLoop", 4, 2, 1, 7, 2)},
 		Required: []string{"c06.lone", "c06.duplicate", "shard.update.keys.same", "loop.fault", "loop.end"},
 		Prefixes: []string{"C06.", "C01.shard.update.", "C03.loop.", "C01.c.loop."},
-		Bounds:   "multi-cycle layer: the closed loop of C03 (S=2, thorough 3; K=1) with one fault at cycle 0 or 1 on any shard - a lost target POST, a shard not ready for one cycle, a sidecar restarted from its store - followed by fault-free cycles: converged within H=6 (7) cycles; thorough also two faults (the second one or two cycles after the first, any shard, any kind) at S=2 within 7 cycles; single-cycle progress lemmas from the states faults leave behind (a lone in_transfer copy; two copies on in-sync shards in every state / load / counter combination) on whole cycles at (S,K) = (1,1), (2,1) (thorough + (2,2) in sync)",
+		Bounds:   "multi-cycle layer: the closed loop of C03 (S=2, thorough 3; K=1) with one fault at cycle 0 or 1 on any shard - a lost target POST, a shard not ready for one cycle, a sidecar restarted from its store - followed by fault-free cycles: converged within H=6 (7) cycles; thorough also two faults (the second one or two cycles after the first, any shard, any kind) at S=2 within 7 cycles; single-cycle progress lemmas from the states faults leave behind (a lone in_transfer copy; two copies on in-sync shards in every state / load / counter combination) on whole cycles at (S,K) = (1,1) and (2,1) with all shards in sync and relief off",
 		Assume:   wfAssumptions,
 		Outside:  append([]string{"more than two faults per run, a first fault later than cycle 1, K>=2 in the closed loop", "a shard removed by scaling as an injected fault (scale-down happens only as the coordinator's own decision in the idle-time variant)"}, cycleOutside...),
 	}
 	t["C19"] = PropSpec{
 		ID: "C19", Pkg: coordPkg, NativeDir: "coordinator",
 		Quick:    []HarnessRun{H("VTwoReplicas", 8, 1, 1, 16, 40), H("VTwoReplicasCycles", 4, 80)},
-		Thorough: []HarnessRun{H("VTwoReplicas", 8, 1, 1, 16, 8), H("VTwoReplicas", 8, 2, 1, 16, 8), H("VTwoReplicas", 8, 1, 1, 16, 0), H("VTwoReplicas", 8, 1, 1, 0, 8), H("VTwoReplicasCycles", 4, 80), H("VTwoReplicasCycles", 4, 16)},
+		Thorough: []HarnessRun{H("VTwoReplicasCycles", 4, 16)},
 		Required: []string{"tworep.ran", "tworep.posted", "tworep.end", "tworep.cycles.second.posted", "tworep.cycles.end"},
 		Prefixes: []string{"C19."},
-		Bounds:   "self-composition of runOnce: a cycle over replicas [A, B] against a cycle over [B] alone with equal-valued reports and an equal explorer state, K = 1 target, B one in-sync shard (thorough: any kind), A one shard (thorough two) of any kind, with concrete loads (thorough: symbolic), or failing to list shards / to scale (early and final request); clock frozen so that both cycles see the same instant; across cycles: two consecutive cycles of one coordinator and one explorer over [A, B] against [A] alone, A one in-sync shard reporting no targets in either cycle (what it was sent is lost), B one in-sync shard scraping the same target, the explorer holding a healthy estimate with symbolic counts, concrete shard loads, relief and scale-down off (thorough: symbolic options) - what A is sent and A's scale requests must agree in both cycles",
+		Bounds:   "self-composition of runOnce: a cycle over replicas [A, B] against a cycle over [B] alone with equal-valued reports and an equal explorer state, K = 1 target, B one in-sync shard, A one shard of any kind with concrete loads, or failing to list shards / to scale (early and final request); clock frozen so that both cycles see the same instant; across cycles: two consecutive cycles of one coordinator and one explorer over [A, B] against [A] alone, A one in-sync shard reporting no targets in either cycle (what it was sent is lost), B one in-sync shard scraping the same target, the explorer holding a healthy estimate with symbolic counts, concrete shard loads, relief and scale-down off (thorough: symbolic options) - what A is sent and A's scale requests must agree in both cycles",
 		Assume:   append([]string{"the explorer hands out the same status object per hash within a cycle; the comparison cycle starts from an equal copy of the explorer's state before the cycle"}, wfAssumptions...),
 		Outside:  append([]string{"K > 1 (B's outcome would depend on iteration order)", "influence across more than two cycles, or through B being processed before A (B's own report objects are private copies)"}, cycleOutside...),
 	}
